@@ -387,7 +387,7 @@ func (g *gen) listExpr(e ast.Expr, en *env) string {
 	case *ast.CallExpr:
 		if id, ok := x.Fun.(*ast.Ident); ok {
 			if id.Name == "append" && x.Ellipsis.IsValid() && len(x.Args) == 2 {
-				return fmt.Sprintf("(%s ++ %s)", g.listExpr(x.Args[0], en), g.listExpr(x.Args[1], en))
+				return fmt.Sprintf("(app %s %s)", g.listExpr(x.Args[0], en), g.listExpr(x.Args[1], en))
 			}
 			if fd, ok := g.t.funcs[id.Name]; ok && g.isPureSig(fd) {
 				g.emitPure(id.Name)
